@@ -1,6 +1,6 @@
 /* Sidecar contracts for C27 "integer parsing is exact and overflow-safe".
  *   int64_core            = the statements of Parser::Tokenizer::int64 (src/parser/Tokenizer.cc) from `bool neg = false;`
- *                           to `return success(...)`, sliced at run time, zero rewrites (see unit.json / stubs/int64_env.h)
+ *                           to `return success(...)`, sliced at run time, zero text rewrites (see unit.json / stubs/int64_env.h)
  *   httpHeaderParseInt, httpHeaderParseOffset = sliced whole from src/HttpHeaderTools.cc
  * Postconditions come from the property statement: the value returned is the exact (arbitrary-precision) value of the
  * digits consumed when that fits the result type, failure otherwise; never a wrapped value; the consumed length is
